@@ -280,14 +280,15 @@ func splitEtag(etag string) (path, hash string, ok bool) {
 // ---------------------------------------------------------------- protocol
 
 type step struct {
-	m      string // G P U A D H
-	path   string
-	body   string // "-" | "!" | tree
-	ifm    string
-	force  bool
-	ct     byte // 0 = application/json, else one of n u x c m i w (see Driver.lean ctOfChar)
-	tree   any
-	hasVal bool
+	m          string // G P U A D H
+	path       string
+	body       string // "-" | "!" | tree
+	ifm        string
+	force      bool
+	cacheOther bool
+	ct         byte // 0 = application/json, else one of n u x c m i w (see Driver.lean ctOfChar)
+	tree       any
+	hasVal     bool
 }
 
 var contentTypes = map[byte]string{0: "application/json", 'n': "", 'u': "application/json; charset=utf-8",
@@ -339,12 +340,17 @@ func parseStep(s string) (step, bool) {
 		st.tree, st.hasVal = t, true
 	}
 	if fl := f[4]; fl != "-" {
+		lead := false
 		if strings.HasPrefix(fl, "f") {
-			st.force = true
+			st.force, lead = true, true
+			fl = fl[1:]
+		} else if strings.HasPrefix(fl, "F") {
+			// Cache-Control: "no-cache, must-revalidate": not the exact value the handlers compare with
+			st.cacheOther, lead = true, true
 			fl = fl[1:]
 		}
 		switch {
-		case fl == "" && st.force:
+		case fl == "" && lead:
 		case len(fl) == 1 && strings.Contains("nuxcmiw", fl):
 			st.ct = fl[0]
 		default:
@@ -450,6 +456,8 @@ func (st step) headers(ifMatch string) map[string]string {
 	}
 	if st.force {
 		h["Cache-Control"] = "must-revalidate"
+	} else if st.cacheOther {
+		h["Cache-Control"] = "no-cache, must-revalidate"
 	}
 	if ifMatch != "" {
 		h["If-Match"] = ifMatch
